@@ -118,16 +118,24 @@ def _find_diff_expr(interp):
     if len(cands) != 1:
         from pyvc.ctx import Unsupported
         raise Unsupported(f"expected exactly one assignment to `diff` in Phase.__array_ufunc__, found {len(cands)}")
-    return mod, cands[0].value
+    # the straight-line assignments that precede it in the same block belong to the computation of `diff`
+    block = None
+    for node in _ast.walk(fn):
+        for field in ("body", "orelse", "finalbody"):
+            stmts = getattr(node, field, None)
+            if isinstance(stmts, list) and cands[0] in stmts:
+                block = stmts[:stmts.index(cands[0]) + 1]
+    return mod, [st for st in (block or [cands[0]]) if isinstance(st, _ast.Assign)]
 
 
 def _diff_body(interp, ctx, args, kwargs):
     from pyvc.interp import Env
     i0, f0, i1, f1 = args
-    mod, expr = _find_diff_expr(interp)
+    mod, stmts = _find_diff_expr(interp)
     env = Env(mod)
     env.vars["phases"] = [{"int": i0, "frac": f0}, {"int": i1, "frac": f1}]
-    return interp.eval(expr, env, ctx)
+    interp.exec_block(stmts, env, ctx)
+    return env.lookup("diff")
 
 
 class SignRel:
@@ -143,6 +151,9 @@ class SignRel:
         for lab, cond in (("m<=-2", m <= -2), ("m=-1", m == -1), ("m=0", m == 0), ("m=1", m == 1), ("m>=2", m >= 2)):
             ctx.oblige(f"{name}.no-sign-inversion+[{lab}]", z3.Implies(z3.And(cond, D > 0), g >= 0), "post")
             ctx.oblige(f"{name}.no-sign-inversion-[{lab}]", z3.Implies(z3.And(cond, D < 0), g <= 0), "post")
+            # statement: "decided on the exact two-part value" -- the sign is that of the exact difference, however small
+            ctx.oblige(f"{name}.exact-sign+[{lab}]", z3.Implies(z3.And(cond, D > 0), g > 0), "post")
+            ctx.oblige(f"{name}.exact-sign-[{lab}]", z3.Implies(z3.And(cond, D < 0), g < 0), "post")
         ctx.oblige(f"{name}.equal-values-compare-equal", z3.Implies(D == 0, g == 0), "post")
         ctx.oblige(f"{name}.resolves-above-2^-52+", z3.Implies(D > th, g > 0), "post")
         ctx.oblige(f"{name}.resolves-above-2^-52-", z3.Implies(D < -th, g < 0), "post")
